@@ -112,6 +112,8 @@ pub struct Gen<'a> {
     arrays: Vec<(String, Ty, Vec<i16>, bool)>, // name, type, dims, declared by DIM
     data_types: Vec<Ty>,
     fns: Vec<(Var, Vec<Ty>, Ty)>,
+    /// parameter names of `fns`, same order
+    fn_params: Vec<Vec<Var>>,
     subs: Vec<usize>, // labels of subroutines
     sub_bodies: Vec<Vec<Draft>>,
     stops: usize,
@@ -199,6 +201,7 @@ impl<'a> Gen<'a> {
             arrays: vec![],
             data_types: vec![],
             fns: vec![],
+            fn_params: vec![],
             subs: vec![],
             sub_bodies: vec![],
             stops: 0,
@@ -986,6 +989,55 @@ impl<'a> Gen<'a> {
                 }
                 out.push(Draft { label: None, stmts });
             }
+            96 if self.cfg.emph == Emph::Fn && !self.fns.is_empty() && !self.tron_on => {
+                // a function is defined again later in the program (same name and parameters, another
+                // body), with calls before and after on the same line: no output in between
+                let i = self.rng.usize(self.fns.len());
+                let (name, ptys, ret) = self.fns[i].clone();
+                let params = self.fn_params[i].clone();
+                let call = |g: &mut Gen| -> Stmt {
+                    let args: Vec<Expr> = ptys.iter().map(|t| g.expr_of(*t, 2)).collect();
+                    let target = match ret {
+                        Ty::Str => LVal::scalar("Z$"),
+                        Ty::Int => LVal::scalar("Q%"),
+                        _ => LVal::scalar("G"),
+                    };
+                    Stmt::Let {
+                        kw: false,
+                        target,
+                        expr: Expr::Fn(name.clone(), args),
+                    }
+                };
+                let before = call(self);
+                self.params = params.iter().zip(ptys.iter()).map(|(p, t)| (p.text(), *t)).collect();
+                // the new body may call functions defined earlier in the list only (no recursion)
+                let saved: Vec<(Var, Vec<Ty>, Ty)> = self.fns.drain(i..).collect();
+                let body = self.expr_of(ret, 1);
+                self.fns.extend(saved);
+                self.params.clear();
+                let after = call(self);
+                let target = match ret {
+                    Ty::Str => "Z$",
+                    Ty::Int => "Q%",
+                    _ => "G",
+                };
+                out.push(Draft {
+                    label: None,
+                    stmts: vec![
+                        before,
+                        Stmt::DefFn {
+                            name: name.clone(),
+                            params,
+                            body,
+                        },
+                        after,
+                        Stmt::Print {
+                            q: false,
+                            items: vec![PItem::E(Expr::var(target))],
+                        },
+                    ],
+                });
+            }
             95 if self.cfg.input && !self.tron_on && self.restarts < 1 && !self.cfg.rnd => {
                 // the program restarts itself (RUN as a statement, possibly from inside loops and
                 // subroutines) depending on what the operator answers
@@ -1562,6 +1614,10 @@ impl<'a> Gen<'a> {
                         params,
                         body,
                     }],
+                });
+                self.fn_params.push(match head.last().and_then(|d| d.stmts.last()) {
+                    Some(Stmt::DefFn { params, .. }) => params.clone(),
+                    _ => vec![],
                 });
                 self.fns.push((Var::new(fname), ptys, ret));
             }
